@@ -530,13 +530,15 @@ Fixpoint run_from (v : variant) (st : state) (h : history) : list out * list sys
       (o1 ++ o2, s1 ++ s2)
   end.
 
-Definition run_all (v : variant) (h : history) : list out * list sys :=
-  let '(st0, o0, s0) := boot [] false in
+(* [predir]: the key directory already exists (created by someone else, mode 0o755, not chown'ed)
+   when the agent starts for the first time *)
+Definition run_all (v : variant) (predir : bool) (h : history) : list out * list sys :=
+  let '(st0, o0, s0) := boot [] predir in
   let '(o, s) := run_from v st0 h in (o0 ++ o, s0 ++ s).
 
 (* DESIGN 5 C12: run : history -> list (sink * text) *)
-Definition run (v : variant) (h : history) : list out := fst (run_all v h).
-Definition sys_trace (v : variant) (h : history) : list sys := snd (run_all v h).
+Definition run (v : variant) (h : history) : list out := fst (run_all v false h).
+Definition sys_trace (v : variant) (predir : bool) (h : history) : list sys := snd (run_all v predir h).
 
 (* ---------------------------------------------------------------------------------------- *)
 (* the property, executable                                                                 *)
@@ -600,7 +602,8 @@ Fixpoint creates_restricted (d : dirstate) (tr : list sys) : bool :=
   | Create _ :: tr' => restricted d && creates_restricted d tr'
   | e :: tr' => creates_restricted (sys_step d e) tr'
   end.
-Definition dir_after (tr : list sys) : dirstate := fold_left sys_step tr None.
+Definition init_dir (predir : bool) : dirstate := if predir then Some (false, 493%N) else None.
+Definition dir_after (predir : bool) (tr : list sys) : dirstate := fold_left sys_step tr (init_dir predir).
 
 (* codes for the correspondence check *)
 Definition sys_code (e : sys) : N * N :=
